@@ -1,4 +1,5 @@
 import WalrusVerif.Lemmas.CrashLemmas
+import WalrusVerif.Props.C06
 /-!
 # C07 — acknowledged appends survive a process crash at any point
 
@@ -102,5 +103,46 @@ example : Eng.run smallCfg
        .append ⟨0, false⟩ ⟨7, 4⟩, .bread ⟨0, false⟩ 99999 true none] =
     [.ok, .ok, .ok, .ok, .crashed, .ok, .ok, .num 2, .ok,
      .entries [(⟨3000, 1⟩, 0), (⟨500, 2⟩, 0), (⟨7, 4⟩, 0)]] := by decide +kernel
+
+/-! ### together with the recovery theorem of C06 -/
+
+theorem fileCells_filesExt (p p' : Proc) (h : FilesExt p p') (f : Nat) (hf : f < p.files.length) :
+    fileCells p'.files f = fileCells p.files f := by
+  obtain ⟨extra, he, _⟩ := h
+  unfold fileCells
+  rw [he, List.getElem?_append_left hf]
+
+open WalrusVerif.Props.C06 in
+/-- **Acknowledged friendly appends survive a process death inside the next append** (storage-level model).  After
+any sequence of successful single-entry appends as in `C06_friendly_appends_are_recovered`, let the process die
+inside a further append, before its entry write: the recovery scan of the file still registers blocks that hold,
+topic by topic and in order, exactly the acknowledged entries - none lost, none of the append in flight. -/
+theorem C07_friendly_appends_survive_crash_in_append (c : Cfg) (hc : AEng.CfgOK c) (p : Proc) (i : Inst) (f : Nat)
+    (hinit : DiskInv c p i f []) (ops : List (Topic × Pay)) (hf : Friendly c ops)
+    (hroom : ops.length * c.blockSize ≤ c.fileSize) (fd : Bool) (t : Topic) (pay : Pay)
+    (hcr : (step c { (appendAll c p i ops).1 with inst := some (appendAll c p i ops).2 }
+        (.crashAt 0 0 fd (.append t pay))).2 = .crashed) (s : ScanSt) :
+    ∃ L : List LBlock, (∀ t', entriesOf t' L = (ops.filter (fun x => x.1 = t')).map (·.2)) ∧
+      ∀ fuel, L.length < fuel →
+        scanFile c f (fileCells (step c { (appendAll c p i ops).1 with inst := some (appendAll c p i ops).2 }
+          (.crashAt 0 0 fd (.append t pay))).1.files f) fuel 0 s = L.foldl (blockStep c f) s := by
+  obtain ⟨L, hent, hscan⟩ := C06_friendly_appends_are_recovered c hc p i f hinit ops hf hroom s
+  have hext := C07_crash_in_append_touches_no_entry c
+    { (appendAll c p i ops).1 with inst := some (appendAll c p i ops).2 } fd t pay hcr
+  obtain ⟨Ld, hD, _, _⟩ := diskInv_appendAll c hc f ops p i [] hinit hf (by simpa using hroom)
+  have hcells := fileCells_filesExt _ _ hext f (by exact hD.inrange)
+  refine ⟨L, hent, ?_⟩
+  intro fuel hfuel
+  rw [hcells]
+  exact hscan fuel hfuel
+
+open WalrusVerif.Props.C06 in
+/-- the hypotheses are met: two appends on a fresh file, then a death inside a third -/
+example : (step smallCfg
+    { (appendAll smallCfg { files := [{ dir := 0, name := 1, cells := [], present := true }] } {}
+        [(⟨0, false⟩, ⟨100, 1⟩), (⟨1, false⟩, ⟨200, 2⟩)]).1 with
+      inst := some (appendAll smallCfg { files := [{ dir := 0, name := 1, cells := [], present := true }] } {}
+        [(⟨0, false⟩, ⟨100, 1⟩), (⟨1, false⟩, ⟨200, 2⟩)]).2 }
+    (.crashAt 0 0 true (.append ⟨0, false⟩ ⟨10, 9⟩))).2 = .crashed := by decide +kernel
 
 end WalrusVerif.Props.C07
